@@ -476,7 +476,7 @@ func ruleComponentWidths(w *World, r *Report, pfx string) {
 			}
 		}
 	}
-	r.Floor(rule, 2, "style components and tip frames")
+	r.Floor(rule, 1, "the construction of style components / tip frames")
 }
 
 // ruleTermSize (T-SIZE, C04/C07): the terminal size query returns (columns, rows) in that order.
